@@ -899,6 +899,18 @@ func (c *Ctx) listAlways(v ssa.Value, pred func(e ssa.Value) bool, depth int) bo
 			}
 		}
 		return false
+	case *ssa.Parameter:
+		// the list a helper extends: what its callers (the pinned one, inside a helper expansion) hand in
+		args := P.paramArgs(x)
+		if len(args) == 0 {
+			return false
+		}
+		for _, a := range args {
+			if !c.listAlways(a, pred, depth+1) {
+				return false
+			}
+		}
+		return true
 	case *ssa.UnOp:
 		if x.Op == token.MUL {
 			if cell := P.cellOf(x.X); cell != nil {
